@@ -14,7 +14,7 @@
     `processor._inputs_map`                         `cache : Option Cached` (a generated mixture, or the user's
                                                     own distribution object — the same slot holds both)
   `dirty` is a ghost field (nothing in the code): the held `NoiseModel` object was updated in place
-  (`set_value`) and not assigned again since.  `NoiseModel` has no observer, so in that state the code
+  (`set_value`) and not assigned again since, or its assignment was rejected (see below).  `NoiseModel` has no observer, so in that state the code
   keeps the source built from the old values; the documented way to make new values effective is the
   assignment `processor.noise = nm`, which is what the theorems are about.
 
@@ -23,8 +23,17 @@
   `clear_input_and_circuit` empties both slots.  Heralds only change which `BasicState` reaches
   `_input_changed_observer` (the harness merges them into `ns`).
 
-  Not modelled: the content of a custom distribution (an opaque identity), an assignment whose
-  `Source(...)` constructor raises (state after an exception).
+  A REJECTED assignment (`processor.noise = nm` with values `Source.__init__` asserts against: brightness `0`,
+  or `brightness * g2 > 1/2` — `NoiseModel` itself validates each field on its own only): the setter of
+  `Experiment.noise` has already stored the reference (and the phase noise) when `_noise_changed_observer`
+  calls `Source.from_noise_model`, which raises before `_source`, `_inputs_map` or `_previous_noise` are touched.
+  The exception reaches the caller, the processor stays usable: `processor.noise` reports the rejected object
+  while the source and a cached distribution are those of the values accepted last.  In the model: `ref := id`,
+  everything else unchanged, ghost flag `dirty := true` (the held object's values are not those of the source; the
+  next accepted assignment ends that state).
+
+  Not modelled: the content of a custom distribution (an opaque identity); a `Processor(...)` constructor call
+  that raises (there is no processor then).
 -/
 import PercevalModel.Model.C06
 import PercevalModel.Found.SM
@@ -45,6 +54,11 @@ structure NoiseVal where
 /-- `Source.from_noise_model(noise)` -/
 def NoiseVal.params (v : NoiseVal) : Params :=
   ofNoise v.brightness v.g2 v.q v.ind v.r v.transmittance v.g2dist
+
+/-- does `Source.from_noise_model` succeed on these values?  (the asserts of `Source.__init__`,
+`Params.admissible`; `NoiseModel` validates each field on its own only, so an object can hold brightness `0` or
+`brightness * g2 > 1/2`) -/
+def NoiseVal.admissible (v : NoiseVal) : Bool := v.params.admissible
 
 /-- the tag counter after `generate_distribution(expected_input)` -/
 def tagAfterGen (P : Params) : List ℕ → ℕ → ℕ
@@ -91,8 +105,8 @@ inductive ProcOp where
   /-- operations that touch neither noise nor input (`min_detected_photons_filter`, …) -/
   | other
 
-/-- `Processor.__init__` with the `NoiseModel` object `ref`: `_noise_changed_observer()` builds the
-source, `_input_changed_observer()` finds no input. -/
+/-- `Processor.__init__` with the `NoiseModel` object `ref` (admissible — otherwise the constructor raises and there
+is no processor): `_noise_changed_observer()` builds the source, `_input_changed_observer()` finds no input. -/
 def Proc.init (heap : ℕ → NoiseVal) (ref : ℕ) : Proc :=
   { heap := heap, ref := ref, src := (heap ref).params, tag := 0, input := none, cache := none,
     dirty := false }
@@ -116,8 +130,12 @@ def procStep (s : Proc) : ProcOp → Proc × Option Cached
     -- `Experiment.noise.setter` stores the reference and calls `_noise_changed_observer`:
     --   `self._source = Source.from_noise_model(self.noise)`;
     --   `if not self._has_custom_input: self._inputs_map = None`
-    ({ s with ref := id, src := (s.heap id).params, tag := 0,
-              cache := if s.hasCustomInput then s.cache else none, dirty := false }, none)
+    if (s.heap id).admissible then
+      ({ s with ref := id, src := (s.heap id).params, tag := 0,
+                cache := if s.hasCustomInput then s.cache else none, dirty := false }, none)
+    else
+      -- `self._noise = nm` is done, then `Source(...)` raises inside the observer: nothing else is assigned
+      ({ s with ref := id, dirty := true }, none)
   | .input ns =>
     -- `_input_changed_observer` → `_generate_noisy_input()` (eagerly)
     (({ s with input := some (.fock ns) }).fill ns, none)
